@@ -773,8 +773,12 @@ func (db *DB) newTransaction(update, isManaged bool) *Txn {
 	txn := &Txn{
 		update: update,
 		db:     db,
-		count:  1,                       // One extra entry for BitFin.
-		size:   int64(len(txnKey) + 10), // Some buffer for the extra entry.
+		count:  1, // One extra entry for BitFin.
+		// Reserve the real maximum size of that extra entry as sendToWriteCh will count it:
+		// the key (txnKey plus 8 bytes of timestamp), the value (the commit timestamp in
+		// decimal, at most 20 digits) and 2 bytes of meta. Reserving less made Commit fail with
+		// ErrTxnTooBig for a transaction whose writes had all been accepted.
+		size: int64(len(txnKey) + 8 + 20 + 2),
 	}
 	if update {
 		if db.opt.DetectConflicts {
